@@ -1202,13 +1202,16 @@ def oracle_lifecycle(obs, modes):
     # expected shape: per period E, I*n, and D when a disable() ends it (with the elapsed time of every iteration).
     # A period begins with start() or run(), whatever was going on before: the mode chosen THEN is the only one
     # that may hear anything until the next period begins.  (A start()/periodic() period that is not followed by
-    # disable() simply ends there -- the class documentation allows that -- and its mode gets no on_disable.)
-    exp = []        # (code, ident, period index, expected elapsed us)
+    # disable() simply ends there -- the class documentation allows that; the property lets the period end with or
+    # without on_disable then: an on_disable of its mode right where the next period begins is accepted, optional.)
+    exp = []        # (code, ident, period index, expected elapsed us[, "optional"])
     cur = None
     t_start = 0
     exited = False
     per = 0
     for o in mops:
+        if o[0] in ("start", "run") and cur:
+            exp.append((2, cur, per, 0, "optional"))
         if o[0] == "start":
             per += 1
             cur = chosen(o[1], o[2])
@@ -1245,6 +1248,12 @@ def oracle_lifecycle(obs, modes):
                     exp.append((2, m, per, 0))
             cur = None          # run() ends with its own disable(): nothing is active afterwards
     got = [(k, i) for k, i, t in obs["events"]]
+    resolved = []
+    for e in exp:
+        if len(e) > 4 and (len(resolved) >= len(got) or got[len(resolved)] != (e[0], e[1])):
+            continue                    # the optional on_disable was not delivered
+        resolved.append(e[:4])
+    exp = resolved
     want = [(k, i) for k, i, p, _ in exp]
     if got != want:
         # name the clause
